@@ -131,6 +131,7 @@ func (eng *Engine) NewFuncProof(fn *ssa.Function, fc *FuncContract, opts ProofOp
 			}
 			ex.simFast = cfg.Fast
 			ex.simNum = cfg.Num
+			ex.simOut = cfg.Out
 		}
 	}
 	fp := &FuncProof{eng: eng, ex: ex, fn: fn, fc: fc, opts: opts,
@@ -1198,8 +1199,20 @@ func (fp *FuncProof) Run() {
 	fp.Check()
 	if hinted {
 		// the hinted invariants are verified like any others; if anything fails (stale hints or a
-		// changed function) inference is redone from the hint state and the check repeated
+		// changed function) the hint is discarded and inference is redone from scratch
 		if tot, dis := fp.ledger.Counts(); tot != dis {
+			fp.resetInvariants()
+			fp.ledger = NewLedger()
+			fp.weak = map[[2]int]bool{}
+			fp.Houdini()
+			fp.Check()
+		}
+	}
+	// inference can stop early when a solver gives up under load; the check pass then shows a
+	// non-inductive invariant with a counter-model, from which inference can resume. Everything is
+	// re-verified from scratch after each resumption.
+	if fp.opts.OnlyKinds == nil {
+		for round := 0; round < 2 && fp.nonInductive(); round++ {
 			fp.ledger = NewLedger()
 			fp.weak = map[[2]int]bool{}
 			fp.Houdini()
@@ -1216,6 +1229,43 @@ func (fp *FuncProof) Run() {
 			fp.writeHints()
 		}
 	}
+}
+
+// nonInductive: some invariant-preservation obligation failed in the last check pass.
+func (fp *FuncProof) nonInductive() bool {
+	n, other := 0, 0
+	for _, e := range fp.ledger.Sorted() {
+		if e.Status == "discharged" {
+			continue
+		}
+		if e.Kind == "sim" || e.Kind == "inv-preserved" || e.Kind == "inv-init" {
+			n++
+		} else {
+			other++
+		}
+	}
+	// a handful of non-inductive atoms and nothing else: an inference artefact worth resuming;
+	// many failures (or failed exit obligations) are reported as they are
+	return n > 0 && n <= 6 && other == 0
+}
+
+// resetInvariants: forget everything inferred (or hinted): all candidate atoms alive again, no
+// spec-state tuples, no return-state contexts.
+func (fp *FuncProof) resetInvariants() {
+	for _, c := range fp.cuts {
+		for _, a := range fp.cands[c] {
+			fp.alive[c][a] = true
+		}
+		if fp.sim != nil {
+			fp.sim.S[c] = map[string]bool{}
+		}
+	}
+	if fp.sim != nil {
+		fp.sim.K = map[[2]int64]bool{}
+	}
+	fp.startEval = map[*Cut]map[*Atom]evalRes{}
+	fp.endEval = map[*PathEnd]map[*Atom]evalRes{}
+	fp.usedHints = false
 }
 
 // specLemmaInstances: instances of the absorption lemma (Dead and Done are absorbing) for every
